@@ -138,18 +138,42 @@ func ruleVD5(c *Ctx) {
 		// in-memory graph updated with the accepted edge (so later edges of the same command see it)
 		if em.has("link") && inCycle(blk) {
 			upd := false
-			eachInstr(f, func(r instrRef) {
-				mu, ok := r.In.(*ssa.MapUpdate)
-				if !ok || c.canon(mu.Key) != tc {
-					return
+			isDepsInsert := func(mu *ssa.MapUpdate, fromCanon, toCanon string) bool {
+				if c.canon(mu.Key) != toCanon {
+					return false
 				}
-				// map is Deps[from]
 				if lk, ok := resolve(mu.Map).(*ssa.Lookup); ok {
-					if _, nme, ok := fieldLoad(lk.X); ok && nme == "Deps" && c.canon(lk.Index) == fc {
-						if mustPassEdges(f, r.Blk, gCyc) {
-							upd = true
+					if _, nme, ok := fieldLoad(lk.X); ok && nme == "Deps" && c.canon(lk.Index) == fromCanon {
+						return true
+					}
+				}
+				return false
+			}
+			eachInstr(f, func(r instrRef) {
+				if mu, ok := r.In.(*ssa.MapUpdate); ok && isDepsInsert(mu, fc, tc) && mustPassEdges(f, r.Blk, gCyc) {
+					upd = true
+				}
+				// the insertion may live in a small helper called with (graph, from, to)
+				if call, ok := r.In.(*ssa.Call); ok {
+					h := call.Call.StaticCallee()
+					if h == nil || !c.InModule(h) || h.Blocks == nil || !mustPassEdges(f, r.Blk, gCyc) {
+						return
+					}
+					e := env{}
+					for i, prm := range h.Params {
+						if i < len(call.Call.Args) {
+							e[prm] = call.Call.Args[i]
 						}
 					}
+					eachInstr(h, func(r2 instrRef) {
+						if mu, ok := r2.In.(*ssa.MapUpdate); ok {
+							curEnv = e
+							if isDepsInsert(mu, fc, tc) && mustPassNoCond(h, r2.Blk) {
+								upd = true
+							}
+							curEnv = nil
+						}
+					})
 				}
 			})
 			c.check(upd, fn, construct+"|graph-updated", pos, "accepted edge is added to graph.Deps[from][to] before the next edge is checked",
@@ -164,17 +188,27 @@ func ruleVD5(c *Ctx) {
 		gTo := c.lookupEdges(f, "Tasks", tc, true)
 		okEx := mustPassEdges(f, blk, gFrom) && mustPassEdges(f, blk, gTo)
 		c.check(okEx, fn, construct+"|ends", pos, "both ids found in graph.Tasks of this callback's graph", "emission not dominated by successful graph.Tasks lookups of both ids: an edge to a missing or pruned item can be recorded")
-		fi, ti := c.lookupValue(f, "Tasks", fc), c.lookupValue(f, "Tasks", tc)
+		isItemOf := func(v ssa.Value, keyCanon string) bool {
+			// v is isEpic(X) with X the value of a comma-ok lookup Tasks[key]
+			c0, _ := callOf(v)
+			if c0 == nil || c0.Call.StaticCallee() != isEpic {
+				return false
+			}
+			ex, ok := resolveEnv(c0.Call.Args[0], curEnv).(*ssa.Extract)
+			if !ok || ex.Index != 0 {
+				return false
+			}
+			lk, ok := ex.Tuple.(*ssa.Lookup)
+			if !ok {
+				return false
+			}
+			if _, n, ok := fieldLoad(lk.X); !ok || n != "Tasks" {
+				return false
+			}
+			return c.canon(lk.Index) == keyCanon
+		}
 		gKinds := guardNil(f, vk, func(a []ssa.Value) bool {
-			if len(a) != 2 || fi == nil || ti == nil {
-				return false
-			}
-			c0, _ := callOf(a[0])
-			c1, _ := callOf(a[1])
-			if c0 == nil || c1 == nil || c0.Call.StaticCallee() != isEpic || c1.Call.StaticCallee() != isEpic {
-				return false
-			}
-			return strip(c0.Call.Args[0]) == fi && strip(c1.Call.Args[0]) == ti
+			return len(a) == 2 && isItemOf(a[0], fc) && isItemOf(a[1], tc)
 		})
 		c.check(mustPassEdges(f, blk, gKinds), fn, construct+"|kinds", pos, "dominated by validateDepKinds(isEpic(fromItem), isEpic(toItem))==nil on the looked-up items",
 			"not dominated by validateDepKinds on the kinds of the two looked-up items (in from,to order): a task<->epic edge can be recorded")
@@ -186,7 +220,7 @@ func ruleVD5(c *Ctx) {
 	re := c.F.Anchors["replayEvents"]
 	badOwn := ""
 	for _, fn := range c.Fns {
-		if Outermost(fn) == re {
+		if Outermost(fn) == re || c.inUnit(Outermost(fn), re) {
 			continue
 		}
 		eachInstr(fn, func(r instrRef) {
